@@ -190,13 +190,6 @@ func runJob(job *Job) *Result {
 	if job.Scenario.Twin && job.Scenario.E2 != nil {
 		x.onState = x.twinState
 	}
-	if o := job.Scenario.Oracle; o == "C08" || o == "C09" || o == "C16" {
-		x.onTerminal = func(w *World, path []Event) {
-			if !w.done() && w.steps < w.sc.MaxDepth {
-				w.violate(o, o+"/stuck", nil, fmt.Sprintf("no event enabled (horizon of %d timer expiries reached or deadlock) and not every live node reached the target height; heights: %v", w.sc.HorizonExpiries, w.heights()))
-			}
-		}
-	}
 	return x.run()
 }
 
